@@ -117,6 +117,37 @@ Proof.
   rewrite (m_parse_cells_print row Hrow). cbn [rbind]. rewrite (IH Hp'). reflexivity.
 Qed.
 
+(** a row fails to parse only when, blanks removed, it ends in a '$'; a matrix pattern only when
+    one of its lines does *)
+Lemma m_parse_cells_total : forall n l, (length l <= n)%nat ->
+  (exists r, m_parse_cells l = Ok r) \/ (exists l0, l = l0 ++ [c_dollar]).
+Proof.
+  induction n as [|n IH]; intros l Hn.
+  - destruct l; [left; exists []; reflexivity|cbn in Hn; lia].
+  - destruct l as [|c l']; [left; exists []; reflexivity|]. cbn [m_parse_cells].
+    destruct (N.eqb_spec c c_dollar) as [->|_].
+    + destruct l' as [|v l'']; [right; exists []; reflexivity|].
+      destruct (IH l'') as [[r Er]|[l0 ->]]; [cbn [length] in Hn; lia| |].
+      * left. rewrite Er. eexists; reflexivity.
+      * right. exists (c_dollar :: v :: l0). reflexivity.
+    + destruct (IH l') as [[r Er]|[l0 ->]]; [cbn [length] in Hn; lia| |].
+      * left. destruct (N.eqb c c_dash); rewrite Er; eexists; reflexivity.
+      * right. exists (c :: l0). reflexivity.
+Qed.
+
+Theorem m_parse_total l :
+  (exists p, m_parse l = Ok p)
+  \/ (exists row l0, In row (lines l) /\ filter (fun c => negb (is_whitespace c)) row = l0 ++ [c_dollar]).
+Proof.
+  unfold m_parse. induction (lines l) as [|row rows IH]; [left; exists []; reflexivity|].
+  cbn [rmapM]. unfold m_parse_row at 1.
+  destruct (m_parse_cells_total (length (filter (fun c => negb (is_whitespace c)) row)) _ (le_n _)) as [[r Er]|[l0 E0]].
+  - rewrite Er. cbn [rbind]. destruct IH as [[p Ep]|[row' [l0 [Hin E0]]]].
+    + left. rewrite Ep. eexists; reflexivity.
+    + right. exists row', l0. split; [now right|exact E0].
+  - right. exists row, l0. split; [now left|exact E0].
+Qed.
+
 Example parse_examples :
   s_parse [97; 36; 120; 98] = Ok [Lit 97; Var 120; Lit 98]
   /\ s_parse [97; 36] = Panic (SiteOther 50)
